@@ -84,6 +84,9 @@ def run_case(case):
     reconf = {}
     for ci, n, v in case.get("reconf", []):
         reconf.setdefault(ci, []).append((n, v))
+    queries, answers = {}, []
+    for ci, how, n in case.get("queries", []):
+        queries.setdefault(ci, []).append((how, n))
     obs = []
     pre = case.get("pre") or [0] * len(case["calls"])
     npost = case.get("post", 0)
@@ -100,6 +103,12 @@ def run_case(case):
                     info.add_seed_values(n, list(v))
                 except Exception as e:  # noqa
                     raise RuntimeError("reconf") from e
+            for how, n in queries.get(ci, []):       # read-only questions about the configuration, before the update
+                try:
+                    v = info.get_seed_values(n) if how == "get_seed_values" else info.get_seeds()[n]
+                    answers.append([ci, how, n, "value", list(v) if isinstance(v, list) and all(type(x) is int for x in v) else repr(v)])
+                except Exception as e:  # noqa
+                    answers.append([ci, how, n, "raise", type(e).__name__])
             if "all" in c:
                 ret = upd.update_seeds(d, rvalue(c["all"]))
             else:
@@ -146,7 +155,7 @@ def run_case(case):
         except Exception:
             draws.append(None)
     hashes = [[s["name"], hash(s["name"])] for s in case["streams"] if s["kind"] != "badkey"]
-    return {"obs": obs, "fb_expect": fb_expect, "draws": draws, "hashes": hashes}
+    return {"obs": obs, "fb_expect": fb_expect, "draws": draws, "hashes": hashes, "queries": answers}
 
 
 def main():
